@@ -30,6 +30,19 @@ CLAIMED = {
              "float conversion on fetch (_round_significant) are outside the encoding and stay unchecked.",
         technique="symbolic execution of real Python source to per-path VCs, discharged by z3/cvc5; native replay",
         design_ref="§2 C30"),
+    "C11": dict(
+        level="proof",
+        text="The four promotion functions are symbolically executed from the real source over the finite sort of "
+             "scalar type classes; table = documented implicit-cast table, acceptance and result type against that "
+             "table for the (type_to_check, return_type) of every operator class found in Operators/*.py, "
+             "check_* <=> promotion for all configurations, operand-order independence for commutative classes, and "
+             "the dispatcher call sites; complete over the 9x9(x10x10) space because the sort is finite.",
+        note="Per-measure loops of dataset/component validation are not under contract (only that the dispatchers "
+             "forward cls.type_to_check/return_type); commutativity set is by operator token; spec of the "
+             "'documented common type' is my reading of docs/data_types.rst (stated in the check's docstring).",
+        technique="symbolic execution of real Python source over a finite enum sort; SMT equivalence with the "
+                  "parsed documentation table (z3/cvc5); native replay",
+        design_ref="§2 C11"),
 }
 
 NOT_YET = "not built yet in this round; planned per DESIGN.md §2 (no claim until its check exists and is sound)"
